@@ -36,11 +36,6 @@ instance : Closed0 NoFlag where
     · subst e; simp [emit, upd] at hx; subst hx; exact h x s hs
     · simp [emit, upd, e] at hx; exact h x s' hx
   dataCb := by intro sid g h; unfold dataCb withLive; split <;> (try split) <;> exact h
-  setTls := by
-    intro sid t g h; unfold setTls withLive; split <;> (try split) <;> (try exact h)
-    rename_i s hs hc; intro x s' hx; by_cases e : x = sid
-    · subst e; simp [upd] at hx; subst hx; exact h x s hs
-    · simp [upd, e] at hx; exact h x s' hx
   setWq := by
     intro sid n g h; unfold setWq withLive; split <;> (try split) <;> (try exact h)
     rename_i s hs hc; intro x s' hx; by_cases e : x = sid
@@ -99,16 +94,6 @@ theorem dataCb_ok (sid : Sid) {g : G} (hn : NoFlag g) (hh : Has sid g) :
   unfold dataCb withLive
   simp [hs, hc, emit]
 
-theorem setTls_ok (sid : Sid) (t : Tls) {g : G} (hn : NoFlag g) (hh : Has sid g) :
-    (setTls sid t g).stale = g.stale ∧ ∀ x, Has x (setTls sid t g) ↔ Has x g := by
-  obtain ⟨s, hs, hc⟩ := upd_live hn hh
-  unfold setTls withLive
-  simp only [hs, hc]
-  refine ⟨by simp, ?_⟩
-  intro x; by_cases e : x = sid
-  · subst e; simp [Has, upd, hs]
-  · simp [Has, upd, e]
-
 theorem setWq_ok (sid : Sid) (n : Nat) {g : G} (hn : NoFlag g) (hh : Has sid g) :
     (setWq sid n g).stale = g.stale ∧ ∀ x, Has x (setWq sid n g) ↔ Has x g := by
   obtain ⟨s, hs, hc⟩ := upd_live hn hh
@@ -132,9 +117,18 @@ theorem viaIndex_ok (sid : Sid) (k : Key) {g : G} (hn : NoFlag g) (hh : Has sid 
 theorem failConnect_ok (site : Site) {g : G} {sid : Sid} (hc : g.cur = some sid) : (failConnect site g).stale = g.stale := by
   unfold failConnect; simp [hc, emit]
 
-theorem insertCur_ok (t : Tls) (k : Option Key) (o : Lid) {g : G} {sid : Sid} (hc : g.cur = some sid) :
+theorem insertCur_ok (t : Bool) (k : Option Key) (o : Lid) {g : G} {sid : Sid} (hc : g.cur = some sid) :
     (insertCur t k o g).stale = g.stale ∧ Has sid (insertCur t k o g) := by
   unfold insertCur; simp [hc, Has, upd]
+
+theorem connectNow_ok (k : Option Key) (o : Lid) (c : Bool) {g : G} {sid : Sid} (hc : g.cur = some sid) (hn : NoFlag g) :
+    (connectNow k o c g).stale = g.stale ∧ Has sid (connectNow k o c g) := by
+  unfold connectNow
+  simp only [hc]
+  have hi := insertCur_ok false k o hc
+  have hn1 : NoFlag (insertCur false k o g) := Closed0.insertCur _ _ _ _ hn
+  have ha := announceConnect_ok sid c hn1 hi.2
+  exact ⟨ha.1.trans hi.1, (ha.2 sid).2 hi.2⟩
 
 theorem has_of_table_eq {g g' : G} (h : g'.table = g.table) (x : Sid) : Has x g' ↔ Has x g := by simp [Has, h]
 
@@ -203,13 +197,10 @@ theorem doSend_ok (sid : Sid) (as : List A) (g : G) (hn : NoFlag g) : (doSend si
 theorem handshakeStep_ok (sid : Sid) (as : List A) (g : G) (hn : NoFlag g) (hh : Has sid g) :
     (handshakeStep sid as g).2.1.stale = g.stale := by
   fun_cases handshakeStep sid as g <;> (try simp) <;> (try rfl)
-  have h1 := setTls_ok sid .opened hn hh
-  have hn1 : NoFlag (setTls sid .opened g) := Closed0.setTls _ _ _ hn
-  have hh1 : Has sid (setTls sid .opened g) := (h1.2 sid).2 hh
-  have h2 := announceConnect_ok sid true hn1 hh1
-  have hn2 : NoFlag (announceConnect sid (setTls sid .opened g)) := Closed0.announceConnect _ _ _ hn1
-  have hh2 : Has sid (announceConnect sid (setTls sid .opened g)) := (h2.2 sid).2 hh1
-  rw [readAvail_ok sid true _ _ hn2 hh2, h2.1, h1.1]
+  have h2 := announceConnect_ok sid true hn hh
+  have hn2 : NoFlag (announceConnect sid g) := Closed0.announceConnect _ _ _ hn
+  have hh2 : Has sid (announceConnect sid g) := (h2.2 sid).2 hh
+  rw [readAvail_ok sid true _ _ hn2 hh2, h2.1]
 
 theorem driveHandshake_ok (sid : Sid) (as : List A) (g : G) (hn : NoFlag g) (hh : Has sid g) :
     (driveHandshake sid as g).2.1.stale = g.stale := by
@@ -297,7 +288,7 @@ theorem tlsSetup_ok (u named : Bool) (as : List A) {g : G} {sid : Sid} (hc : g.c
     (tlsSetup u named as g).2.1.stale = g.stale ∧ ((tlsSetup u named as g).1 = false → (tlsSetup u named as g).2.1 = g) := by
   fun_cases tlsSetup u named as g <;> simp [failConnect_ok _ hc]
 
-theorem doConnect_ok (tls named : Bool) (as : List A) (g : G) (sid : Sid) (hc : g.cur = some sid) (hn : NoFlag g) :
+theorem doConnect_ok (tls : TlsReq) (named : Bool) (as : List A) (g : G) (sid : Sid) (hc : g.cur = some sid) (hn : NoFlag g) :
     (doConnect tls named as g).1.stale = g.stale := by
   unfold doConnect
   simp only []
@@ -313,16 +304,16 @@ theorem doConnect_ok (tls named : Bool) (as : List A) (g : G) (sid : Sid) (hc : 
       split
       · rw [failConnect_ok _ hc1]; exact e1.1
       · rw [failConnect_ok _ hc1]; exact e1.1
-      · have e2 := tlsSetup_ok (tls && g.cfg.cliCtx) named (connLoop (resolveStep named as g).2.1 (resolveStep named as g).2.2.2).2 hc1
-        by_cases h2 : (tlsSetup (tls && g.cfg.cliCtx) named (connLoop (resolveStep named as g).2.1 (resolveStep named as g).2.2.2).2
+      · have e2 := tlsSetup_ok (decide (tls = .client) && g.cfg.cliCtx) named (connLoop (resolveStep named as g).2.1 (resolveStep named as g).2.2.2).2 hc1
+        by_cases h2 : (tlsSetup (decide (tls = .client) && g.cfg.cliCtx) named (connLoop (resolveStep named as g).2.1 (resolveStep named as g).2.2.2).2
             (resolveStep named as g).2.2.1).1 = true
         · rw [if_pos h2]; exact e2.1.trans e1.1
         · rw [if_neg h2]
           have eg2 := e2.2 (by simpa using h2)
           rw [eg2]
           simp only [hc1]
-          have hi := insertCur_ok (if (tls && g.cfg.cliCtx) = true then Tls.handshake else Tls.none) none 0 hc1
-          have hni : NoFlag (insertCur (if (tls && g.cfg.cliCtx) = true then Tls.handshake else Tls.none) none 0 (resolveStep named as g).2.2.1) :=
+          have hi := insertCur_ok (decide (tls = .client) && g.cfg.cliCtx) none 0 hc1
+          have hni : NoFlag (insertCur (decide (tls = .client) && g.cfg.cliCtx) none 0 (resolveStep named as g).2.2.1) :=
             Closed0.insertCur _ _ _ _ hn1
           split
           · rw [(connectCheck_ok sid _ _ _ _ _ hni hi.2).1, hi.1]; exact e1.1
@@ -463,19 +454,15 @@ theorem connectDo_ok (as : List A) (g : G) (sid : Sid) (hc : g.cur = some sid) (
   split
   · split
     · exact failConnect_ok _ hc
-    · simp only [hc]
-      have hi := insertCur_ok .none none 0 hc
-      rw [(announceConnect_ok sid true (Closed0.insertCur _ _ _ _ hn) hi.2).1, hi.1]
+    · exact (connectNow_ok none 0 true hc hn).1
   · exact failConnect_ok _ hc
 
 theorem viaDo_ok (lid : Lid) (k : Key) (as : List A) (g : G) (sid : Sid) (hc : g.cur = some sid) (hn : NoFlag g) :
     (viaDo lid k as g).1.stale = g.stale := by
-  have main : (viaIndex sid k (announceConnect sid (insertCur .none (some k) lid g) false)).stale = g.stale := by
-    have hi := insertCur_ok .none (some k) lid hc
-    have hn1 : NoFlag (insertCur .none (some k) lid g) := Closed0.insertCur _ _ _ _ hn
-    have ha := announceConnect_ok sid false hn1 hi.2
-    have hn2 : NoFlag (announceConnect sid (insertCur .none (some k) lid g) false) := Closed0.announceConnect _ _ _ hn1
-    rw [viaIndex_ok sid k hn2 ((ha.2 sid).2 hi.2), ha.1, hi.1]
+  have main : (viaIndex sid k (connectNow (some k) lid false g)).stale = g.stale := by
+    have hcn := connectNow_ok (some k) lid false hc hn
+    have hn2 : NoFlag (connectNow (some k) lid false g) := ClosedU0.connectNow _ _ _ _ hn
+    rw [viaIndex_ok sid k hn2 hcn.2, hcn.1]
   unfold viaDo
   simp only [hc]
   repeat' split
